@@ -296,6 +296,9 @@ def r5_destination(chk, f):
         if hdr and pn and sn:
             reaches_unprocessed = cfg.path(hdr, sn, edge_ok=lambda a, b, lab: not (a in pn and lab != "exc"))
         tr = [t for t in walk_no_nested(f.node) if isinstance(t, ast.Try) and any(x is p for p in procs for b in t.body for x in ast.walk(b))]
+        # the try this store belongs to (single and vectorised finalisation each have their own)
+        own_try = [t for t in tr if any(x is s for b in t.orelse + t.body for x in ast.walk(b))]
+        tr = own_try or tr
         if not hdr or not pn or not sn or reaches_unprocessed is not None:
             problems.append("the store can be reached without job.process() having completed in this iteration (it is not in the `else` of the try around it, "
                             "nor behind a handler that leaves the iteration): a result is stored although processing raised (or before it ran)")
@@ -330,6 +333,29 @@ def r5_destination(chk, f):
             checks_exit = any(isinstance(x, ast.Compare) and "exitcode" in norm(x) for b in tr[0].body for x in ast.walk(b)) and any(isinstance(x, ast.Raise) for b in tr[0].body for x in ast.walk(b))
             if not checks_exit:
                 problems.append("nothing tests the exit code of the loaded output before its processed result is stored: an item whose command failed still lands in the destination")
+            else:
+                # what the test means: it must reject as soon as ONE loaded output has a non-zero exit code (tabulated; `all(..)` for `any(..)`
+                # lets an item with one failed conformer through)
+                from ..truth import Unknown, evaluate
+
+                for g_ in [x for b in tr[0].body for x in walk_no_nested(b) if isinstance(x, ast.If) and "exitcode" in norm(x.test) and any(isinstance(y, ast.Raise) for y in x.body)]:
+                    iters = {norm(c_.iter) for c_ in ast.walk(g_.test) if isinstance(c_, ast.comprehension)}
+                    worlds = [([0, 0], False), ([0, 3], True), ([3, 0], True), ([3, 3], True)] if iters else [([0], False), ([3], True)]
+                    for codes, want in worlds:
+                        def lookup(n, codes=codes):
+                            if isinstance(n, ast.Name) and n.id in iters:
+                                return [dict(exitcode=c_) for c_ in codes]
+                            if isinstance(n, ast.Attribute) and n.attr == "exitcode" and isinstance(n.value, ast.Name) and not iters:
+                                return codes[0]
+                            return NotImplemented
+                        try:
+                            got = bool(evaluate(g_.test, lookup))
+                        except Unknown as u:
+                            raise AnalysisError(f"{f.key}: the exit-code test `{short(g_.test, 50)}` cannot be tabulated: {u}")
+                        if got != want:
+                            problems.append(f"`{short(g_.test, 50)}` is {got} for outputs with exit codes {codes}: " + ("an item with a failed command is processed into the destination"
+                                            if want else "an item whose commands all succeeded is rejected"))
+                            break
         chk.decide(not problems, "C18.R5", key, f.where(s), f"destination[{k}] = result of a successful run, in try/else, inside writing()", "; ".join(problems))
     dels = [s for s in walk_no_nested(f.node) if isinstance(s, ast.Delete) and any("destination" in norm(t) for t in s.targets)] + \
            [c for c in walk_no_nested(f.node) if isinstance(c, ast.Call) and norm(c.func) in ("destination.pop", "destination.clear", "destination.truncate", "destination._backend.truncate")]
